@@ -12,7 +12,7 @@ META = dict(
            "PIDcontroller on a Revolute joint, evaluated at states on the joint manifold (free pose and velocity of the first body, joint angle by its "
            "Weierstrass symbol, all four quadrant paths) with arbitrary directions dq, du; k, d, eta, gains, l_ref symbolic.",
     assumptions=["quaternions nonzero; k, d, eta > 0", "distance of the two points nonzero",
-                 "Revolute: base points on the joint manifold (the angle is undefined where the projected axes vanish); arctan's value is an unconstrained symbol, its derivative dz/(1+z^2)"],
+                 "Revolute: base configurations on the joint manifold (the angle is undefined where the projected axes vanish), velocities free; arctan's value is an unconstrained symbol, its derivative dz/(1+z^2)"],
     trusted_base=[],
 )
 
@@ -113,7 +113,8 @@ def revolute_jac(h, first="F", what="joint", axis=2, seed=0, concrete_orientatio
     j, el, sysm = rp.joint, rp.el, rp.sysm
     # system coordinates: bodies first; a PID controller owns one more coordinate (the integrated error)
     q = np.concatenate([qb, h.vec("qi", sysm.nq - len(qb))]) if sysm.nq > len(qb) else qb
-    u = ub
+    # velocities are NOT restricted to the joint's velocity manifold: derivative routines must be exact for every u
+    u = h.vec("u", sysm.nu)
     dq, du = h.vec("dq", sysm.nq), h.vec("du", sysm.nu)
     qJ, uJ = j.qDOF, j.uDOF
     if what == "joint":
